@@ -26,4 +26,12 @@ CLAIMED.update({
   "note": LEDGER_NOTE + " LoadDag: see C14 (the load-time guard alone is weaker).", "design_ref": "6 C10",
  },
 })
+CLAIMED.update({
+ "C09": {
+  "engine": "ledgerh+CheckLedger",
+  "technique": "Coq graph invariant by induction over all operation sequences (reach_InvG: edges = declared live parents, absent parents checkpointed, topological list order => acyclic); trace-acceptor correspondence; snapshot monitor with real signature re-verification",
+  "text": "C09_acyclic, C09_edges_exact: on every reachable ledger the graph is acyclic (every edge strictly increases a rank), each live vertex has exactly one edge from each declared parent that is live and from nothing else, and a declared parent that is not live is checkpointed (genesis excepted) - through dropped tips, rolled-back additions, equal parents and truncation. C09_created_vertex: created vertices reference live tips returned by the validation pass and weigh max+1. C09_unverified_never_admitted. The snapshot monitor recomputes digests/signatures of every vertex of the implementation with the real verifier and compares graph edges with declared parents.",
+  "note": LEDGER_NOTE + " Zero hash is reserved for 'no parent' (no vertex carries it).", "design_ref": "6 C09",
+ },
+})
 NOT_YET = {}
